@@ -494,6 +494,9 @@ func corr(e *env, seed uint64, n int) {
 	e.multiCases(r, n/2, next)
 	// --- Y: sample entries from the syntax (typed fixed fields, sinf anywhere among the children): decode + RemoveEncryption + Encode
 	e.entryFixedCases(r, n/2, next)
+	boxSizeCases(r, 40, next)
+	// --- N: GetFullSamples metadata of a traf with several truns
+	e.trafTimingCases(r, n/4, next)
 	out.Flush()
 }
 
